@@ -80,6 +80,7 @@ pub fn cells(tier: Tier) -> Vec<CellPlan> {
         EvOp::Disconnect(1),
         EvOp::LateDisconnect(1),
         EvOp::Connect(1),
+        EvOp::ConnectSlowlyEmitting(1),
     ];
     c.rounds = if q { 3 } else { 4 };
     v.push(plan(c, if q { 1 } else { 2 }, 2.0));
